@@ -401,7 +401,10 @@ pub fn judge_run_case(ctx: &mut Ctx, suite: &str, cs: u64, case: &Case, src: &st
         if run.tail_lines.iter().any(|l| l.starts_with("item ") && l.contains(" row ")) {
             ctx.report.bump("rows-behind-error-item");
         }
-        let (ti, tm) = (project(&prop, &run.tail_lines), project(&prop, &m_tail));
+        // C10 is the home of "what a caller who goes on behind an error item gets": there the rows themselves are
+        // compared (lines, inputs, expected values, `vars()` — C01's projection), not only the kinds of the items
+        let tail_prop = if prop == "C10" { "C01".to_string() } else { prop.clone() };
+        let (ti, tm) = (project(&tail_prop, &run.tail_lines), project(&tail_prop, &m_tail));
         if ti != tm {
             let mut il = run.lines.clone();
             il.push("# --- behind the first error item ---".into());
